@@ -93,6 +93,45 @@ def run_seq(kind, reqs, order):
                           else (None if ok_returned else "C10:history-entry-times-are-not-in-change-order")}
     return ok and strictly and ok_returned
 
+def batch(kind, n, order):
+    """a parallelize batch registered while the history writers are late: every invocation of the batch gets exactly its own REGISTERED entry"""
+    global LAST_DETAIL
+    reset_uuid()
+    standins.install_deferred_history()
+    app = mk_app(kind, app_id="c10b" + kind)
+    task = app.task(body); warm_task(task)
+    group = task.parallelize([() for _ in range(n)])
+    ids = [i.invocation_id for i in group.invocations]
+    pend = list(standins.DeferredThread.pending)
+    if order == 1:
+        pend.reverse()
+    elif order == 2 and len(pend) > 1:
+        pend = pend[1:] + pend[:1]
+    standins.DeferredThread.pending = []
+    for t in pend:
+        t.run_now()
+    app.state_backend.wait_for_all_async_operations()
+    standins.install_sync_history()
+    got = {}
+    ok = True
+    for iid in ids:
+        hist = app.state_backend.get_history(iid)
+        got[iid[-4:]] = [(h.invocation_id[-4:], h.status_record.status.value) for h in hist]
+        reg = app.orchestrator.get_invocation_status_record(iid)
+        if [(h.invocation_id, h.status_record.status.value, h.runner_context_id) for h in hist] != [(iid, "registered", reg.runner_id)]:
+            ok = False
+    LAST_DETAIL = {"kind": kind, "batch": n, "order": order, "histories": got, "why": None if ok else "C10:batch-registration:history-missing-duplicated-or-misattributed"}
+    return ok
+
+def batch_registration(kind_i: int, n: int, order: int) -> bool:
+    """
+    pre: 0 <= kind_i <= 1 and 1 <= n <= 4 and 0 <= order <= 2
+    post: _
+    """
+    kind_i = pick(kind_i, 0, 1); n = pick(n, 1, 4); order = pick(order, 0, 2)
+    with NoTracing():
+        return batch(["mem", "sqlite"][kind_i], n, order)
+
 def go(reqs, order):
     reqs = [(pick(n, 0, 13), pick(r, 0, 1)) for (n, r) in reqs]
     order = pick(order, 0, 2)
@@ -160,13 +199,15 @@ def run(ctx: Ctx) -> None:
             src += F3.replace("__V__", v).replace("__N__", str(n)).replace("__PREFIX__", prefix)
             conds.append(Cond(f"seq3_via{v}_n{n}", "confirm", 600))
     src += EXTRA
-    conds += [Cond("twin", "refute", 60), Cond("canary_duplicate", "refute", 120)]
+    conds += [Cond("batch_registration", "confirm", 300, keyfn=lambda a, k: "C10:batch-registration:history-missing-duplicated-or-misattributed"),
+              Cond("twin", "refute", 60), Cond("canary_duplicate", "refute", 120)]
     ctx.ch_batch("c10", src, conds)
     from props import C10_sched
     C10_sched.run(ctx)
     ctx.functions_encoded += ["BaseOrchestrator.set_invocation_status/register_new_invocations", "BaseStateBackend.add_history/add_histories/get_history/wait_for_all_async_operations",
                               "Mem/SQLite _add_histories/_get_history", "Mem/SQLite _atomic_status_transition"]
     ctx.bounds = {"sequences": "2 free requests from REGISTERED; 2 free requests after [PENDING by r1] and after [PENDING, RUNNING by r1]; 14 statuses x 2 runners each",
+                  "batch": "a parallelize batch of 1-4 invocations registered while the writers are late (start order / reversed / rotated), both backends",
                   "writers": "history writer threads deferred until after the last request and run in start order / reversed / rotated",
                   "backends": "in-memory and SQLite in the same path"}
     ctx.stubs += ["threading.Thread in base_state_backend -> DeferredThread (writers run when the harness says so)", "datetime.now in base_state_backend -> strictly increasing instants", "counter clock in orchestrators, deterministic uuid4"]
